@@ -120,31 +120,30 @@ Definition same_result (m : res bytes) (c : nat) (d : bytes) : bool :=
   | Panic => (c =? 2)%nat
   end.
 
+Definition e2e_class (c1 c2 : nat) : nat := if (c1 =? 0)%nat then c2 else c1.
+
+(* What is compared is the end-to-end outcome of each path (rejected at decode time or at hash time is
+   the same observable: an error), plus the decoded value when both sides decode. *)
 Definition check_doc (doc : json) (o : bytes -> option Z) (ucls : nat) (proj : N * N * N)
            (hcls : nat) (hdig : bytes) (pcls scls : nat) (sdig : bytes) : N :=
   if (ucls =? 2)%nat || (hcls =? 2)%nat || (pcls =? 2)%nat || (scls =? 2)%nat then 12 else
-  match decode_typed_data doc with
-  | Panic => 1
-  | Err _ => if negb (ucls =? 1)%nat then 1 else if negb (pcls =? 1)%nat then 3 else 0
-  | Ok td =>
-      if negb (ucls =? 0)%nat then 1
-      else if negb (cks_eqb (cks (ser_td td)) proj) then 2
-      else if negb (pcls =? 0)%nat then 3
-      else
-        let rv := EncodeTypedDataV4 keccak256 o (Some td) in
-        if negb (same_result rv hcls hdig) then 4
-        else
-          (* pointer path: the document null leaves the pointer nil (SignTypedDataV4 of nil);
-             otherwise the pointer holds the same value, and SignTypedDataV4 returns the digest
-             just computed as its hash (vm_compute is eager: it is not recomputed) *)
-          match doc with
-          | JNull =>
-              let rs := match SignTypedDataV4 keccak256 o dummy_signer None with
-                        | Ok r => Ok (r_hash r) | Err e => Err e | Panic => Panic
-                        end in
-              if same_result rs scls sdig then 0 else 5
-          | _ => if same_result rv scls sdig then 0 else 5
-          end
+  let dv := decode_typed_data doc in
+  let proj_ok := match dv with
+                 | Ok td => if (ucls =? 0)%nat then cks_eqb (cks (ser_td td)) proj else true
+                 | _ => true
+                 end in
+  if negb proj_ok then 2 else
+  let rv := do td <- dv; EncodeTypedDataV4 keccak256 o (Some td) in
+  if negb (same_result rv (e2e_class ucls hcls) hdig) then 4 else
+  (* pointer path: the document null leaves the pointer nil (SignTypedDataV4 of nil); otherwise the
+     pointer holds the same value and SignTypedDataV4 returns the digest just computed as its hash *)
+  match doc with
+  | JNull =>
+      let rs := match SignTypedDataV4 keccak256 o dummy_signer None with
+                | Ok r => Ok (r_hash r) | Err e => Err e | Panic => Panic
+                end in
+      if same_result rs (e2e_class pcls scls) sdig then 0 else 5
+  | _ => if same_result rv (e2e_class pcls scls) sdig then 0 else 5
   end.
 
 Definition x_key : bytes := bs "x".
